@@ -17,12 +17,12 @@ for p in $PKGS; do ip=github.com/obolnetwork/charon/${p#./}; IMPORTERS="$IMPORTE
 if echo "$PKGS" | grep -q '^./dkg'; then EXCL='^$'; else EXCL='^./dkg$'; fi
 ALL=$(echo $PKGS $IMPORTERS "$@" | tr ' ' '\n' | sort -u | grep -v "$EXCL" | tr '\n' ' ')
 echo "existing tests: $ALL"
-go test -count=1 -timeout 20m -json $ALL > /tmp/confirm_tests.json 2>&1
-python3 - <<'PY'
-import json
+go test -count=1 -timeout 20m -json $ALL > /tmp/confirm_tests_$$.json 2>&1
+CT=/tmp/confirm_tests_$$.json python3 - <<'PY'
+import json,os
 bad=set(json.load(open('/verif/tools/baseline_nonpassing.json')))
 fails=[]
-for l in open('/tmp/confirm_tests.json'):
+for l in open(os.environ['CT']):
     try: e=json.loads(l)
     except Exception: continue
     if e.get('Action')=='fail' and e.get('Test'):
@@ -31,7 +31,8 @@ for l in open('/tmp/confirm_tests.json'):
 print("CONFIRM existing-tests:", "PASS (failures only among the tests that also fail on the unchanged tree in this sandbox)" if not fails else "FAIL "+str(fails[:10]))
 PY
 for f in $SEED/*_test.go; do cp $f $DEMODIR/zz_seed_$(basename $f); done
-go test -count=1 -run "$RUN" ./$DEMODIR > /tmp/confirm_with.log 2>&1 && res demo-with-change "PASSES (unexpected)" || res demo-with-change "fails (expected)"
+go test -count=1 -run "$RUN" ./$DEMODIR > /tmp/confirm_with_$$.log 2>&1 && res demo-with-change "PASSES (unexpected)" || { grep -q -- "--- FAIL" /tmp/confirm_with_$$.log && res demo-with-change "fails (expected)" || { res demo-with-change "DOES NOT BUILD OR RUN"; tail -8 /tmp/confirm_with_$$.log; }; }
 git checkout -q -- . 
-go test -count=1 -run "$RUN" ./$DEMODIR > /tmp/confirm_without.log 2>&1 && res demo-without-change "passes (expected)" || { res demo-without-change "FAILS (unexpected)"; tail -5 /tmp/confirm_without.log; }
+go test -count=1 -run "$RUN" ./$DEMODIR > /tmp/confirm_without_$$.log 2>&1 && res demo-without-change "passes (expected)" || { res demo-without-change "FAILS (unexpected)"; tail -5 /tmp/confirm_without_$$.log; }
 cd /; git -C /repo worktree remove --force $WT
+rm -f /tmp/confirm_tests_$$.json /tmp/confirm_with_$$.log /tmp/confirm_without_$$.log
